@@ -102,6 +102,14 @@ func runC02(c *Ctx) {
 	var slow, total int
 	parseCase := func(gen string, data []byte, tags ...string) {
 		total++
+		os.WriteFile("inflight.txt", []byte(Render(L(S("parsedata"), S(string(data))))), 0o644)
+		// "parsing terminates promptly": an input on which the implementation does not come back ends the
+		// harness, and the check reports the in-flight input
+		wd := time.AfterFunc(40*time.Second, func() {
+			fmt.Fprintln(os.Stderr, "watchdog: the implementation did not return within 40 s on the in-flight input")
+			os.Exit(3)
+		})
+		defer wd.Stop()
 		// oracles shipped to the model: the gzip reader's answer and the legacy chain's answer
 		gz := L(S("none"))
 		inner := data
@@ -136,14 +144,6 @@ func runC02(c *Ctx) {
 			}()
 		}
 		var obs Term
-		os.WriteFile("inflight.txt", []byte(Render(L(S("parsedata"), S(string(data))))), 0o644)
-		// "parsing terminates promptly": an input on which the implementation does not come back ends the
-		// harness, and the check reports the in-flight input
-		wd := time.AfterFunc(40*time.Second, func() {
-			fmt.Fprintln(os.Stderr, "watchdog: the implementation did not return within 40 s on the in-flight input")
-			os.Exit(3)
-		})
-		defer wd.Stop()
 		t0 := time.Now()
 		func() {
 			defer func() {
